@@ -1,11 +1,10 @@
 #![no_main]
 //! Coverage-guided byte-level fuzzing of Package::open + the C09 battery.
-//! A panic anywhere aborts (libfuzzer's hook) and leaves the input as an
-//! artifact; the battery's own verdicts (I/O budget) are turned into panics.
+//! The battery's verdicts (panic with its location, I/O budget) abort the
+//! process unless they carry the signature of an open known finding, and
+//! libFuzzer keeps the input as an artifact.
 use libfuzzer_sys::fuzz_target;
 
 fuzz_target!(|data: &[u8]| {
-    if let Err(f) = verifcore::battery::run_battery(data, false) {
-        panic!("{}: {}", f.sig, f.detail);
-    }
+    verifcore::battery::fuzz_judge(data);
 });
